@@ -563,17 +563,18 @@ Definition else_nodes (el : option (list node)) : list node := match el with Som
 
 (* processIfContent on  X <then> [\else <else>] \fi tl , X being tokens read over like text (the \relax instance) *)
 Lemma tprocess_cond X th el tl w :
-  Forall (fun t => classify t = KTok 0%Z) X -> F1l th -> (forall e, el = Some e -> F1l e) ->
+  Forall (fun t => classify t = KTok 0%Z) X -> (forall k, walks (print th) k k) ->
+  (forall e, el = Some e -> forall k, walks (print e) k k) ->
   tprocess (WBool w) (X ++ print th ++ else_part el ++ esc s_fi :: tl)
   = Some ((if w then X ++ print th else print (else_nodes el)) ++ tl).
 Proof.
   intros HX Hth Hel. unfold tprocess, tscan.
-  assert (Hw : walks (X ++ print th) O O) by (eapply walks_app; [now apply walks_toks|now apply (proj2 walks_print)]).
+  assert (Hw : walks (X ++ print th) O O) by (eapply walks_app; [now apply walks_toks|apply Hth]).
   rewrite app_assoc, Hw, app_nil_r.
   destruct el as [e|]; cbn [else_part else_nodes app].
   - change (esc s_else :: print e ++ esc s_fi :: tl) with ([esc s_else] ++ print e ++ esc s_fi :: tl).
     cbn [app tscan_go]. change (classify (esc s_else)) with KElse. cbn iota. cbn [length].
-    rewrite (proj2 walks_print e (Hel e eq_refl) O), app_nil_r. cbn [tscan_go].
+    rewrite (Hel e eq_refl O), app_nil_r. cbn [tscan_go].
     change (classify (esc s_fi)) with KFi. cbn iota.
     unfold tselect. cbn [telse tcases trest rev app]. rewrite !rev_involutive.
     destruct w; reflexivity.
@@ -583,7 +584,8 @@ Proof.
 Qed.
 
 Lemma if_invoke_cond X th el tl w U B :
-  Forall (fun t => classify t = KTok 0%Z) X -> F1l th -> (forall e, el = Some e -> F1l e) ->
+  Forall (fun t => classify t = KTok 0%Z) X -> (forall k, walks (print th) k k) ->
+  (forall e, el = Some e -> forall k, walks (print e) k k) ->
   if_invoke w (St (X ++ print th ++ else_part el ++ esc s_fi :: tl) U B)
   = Ret (St ((if w then X ++ print th else print (else_nodes el)) ++ tl) U B).
 Proof. intros HX Hth Hel. unfold if_invoke. cbn [input]. now rewrite tprocess_cond. Qed.
@@ -619,18 +621,33 @@ Proof.
   now rewrite Z.gtb_ltb.
 Qed.
 
-(* \def\zq..{body} / \gdef\zq..{body} *)
-Lemma def_invoke_print gl nm b tl U B : F1l b ->
-  def_invoke gl (St (esc (mname nm) :: bg :: print b ++ eg :: tl) U B)
+(* \def\zq..#1..#n{body} / \gdef.. : [body] any brace-balanced token list *)
+Lemma is_bgroup_param_text i n : Forall (fun t => is_bgroup t = false) (flat_map (fun i => [hash_tok; other (48 + N.of_nat i)]) (seq i n)).
+Proof. revert i. induction n as [|n IH]; intros i; cbn [seq flat_map app]; [constructor|]. constructor; [reflexivity|]. constructor; [reflexivity|apply IH]. Qed.
+Lemma read_args_nobg l : forall acc rest, Forall (fun t => is_bgroup t = false) l ->
+  read_args (l ++ bg :: rest) acc = (rev acc ++ l, bg :: rest).
+Proof.
+  induction l as [|t l IH]; intros acc rest H.
+  - cbn [app read_args]. change (is_bgroup bg) with true. cbn iota. now rewrite app_nil_r.
+  - inversion H as [|t' l' Ht Hl]; subst. cbn [app read_args]. rewrite Ht. rewrite IH by exact Hl. cbn [rev]. now rewrite <- app_assoc.
+Qed.
+Lemma has_nested_param_text i n : has_nested (flat_map (fun i => [hash_tok; other (48 + N.of_nat i)]) (seq i n)) = false.
+Proof. revert i. induction n as [|n IH]; intros i; [reflexivity|]. cbn [seq flat_map app has_nested]. change (is_param hash_tok) with true. cbn iota. change (is_param (other _)) with false. cbn iota. apply IH. Qed.
+Lemma ros_param_text np rest : read_optional_spaces (param_text np ++ bg :: rest) = param_text np ++ bg :: rest.
+Proof. destruct np; reflexivity. Qed.
+
+Lemma def_invoke_text gl nm np body tl U B : depth_after body O = Some O ->
+  def_invoke gl (St (esc (mname nm) :: param_text np ++ bg :: body ++ eg :: tl) U B)
   = Ret (push_tok (prim_elem (PDef gl))
-           ((if gl then add_global else add_local) (mname nm) (MDef [] (print b)) (St tl U B))).
+           ((if gl then add_global else add_local) (mname nm) (MDef (param_text np) body) (St tl U B))).
 Proof.
   intros Hb. unfold def_invoke, ros. cbn [input read_optional_spaces].
-  change (is_space (esc (mname nm))) with false. cbn iota. unfold set_input. cbn [input ups bottom read_optional_spaces].
-  change (is_space bg) with false. cbn iota. cbn [read_args]. change (is_bgroup bg) with true. cbn iota. cbn [rev input read_optional_spaces].
-  change (is_space bg) with false. cbn iota. cbn [input ups bottom].
+  change (is_space (esc (mname nm))) with false. cbn iota. unfold set_input. cbn [input ups bottom].
+  rewrite ros_param_text. unfold param_text. rewrite (read_args_nobg _ [] _ (is_bgroup_param_text 1 np)). cbn [rev app input ups bottom read_optional_spaces].
+  change (is_space bg) with false. cbn iota.
   unfold read_token. change (is_bgroup bg) with true. cbn iota.
-  rewrite (read_group_print b tl Hb). cbn [has_nested]. reflexivity.
+  rewrite (read_group_app body O [] (eg :: tl) O Hb). cbn [read_group]. change (is_bgroup eg) with false. change (is_egroup eg) with true. cbn iota.
+  rewrite app_nil_r, rev_involutive. rewrite has_nested_param_text. reflexivity.
 Qed.
 
 (* ---------------------------------------------------------------------------------------------- *)
@@ -662,12 +679,12 @@ Definition frel (isb : bool) (mf : MacroLang.frame) (ef : Engine.frame) : Prop :
   (forall id, findm (mname id) ef = option_map mean_of (alookup id mf)) /\
   (forall k, (forall id, k <> mname id) -> findm k ef = if isb then findm k base_frame else None).
 
-Definition good (m : MacroLang.meaning) : Prop := m_n m = O /\ m_default m = None /\ F1l (m_body m).
-Definition menv_ok (fs : list MacroLang.frame) : Prop :=
-  forall f id m, In f fs -> alookup id f = Some m -> good m.
+(* [G]: what is known about every stored meaning (fragment dependent) *)
+Definition menv_okg (G : MacroLang.meaning -> Prop) (fs : list MacroLang.frame) : Prop :=
+  forall f id m, In f fs -> alookup id f = Some m -> G m.
 
-Definition Rf (fs : list MacroLang.frame) (U : list Engine.frame) (B : Engine.frame) : Prop :=
-  exists mfs mg, fs = mfs ++ [mg] /\ Forall2 (frel false) mfs U /\ frel true mg B /\ menv_ok fs.
+Definition Rfg (G : MacroLang.meaning -> Prop) (fs : list MacroLang.frame) (U : list Engine.frame) (B : Engine.frame) : Prop :=
+  exists mfs mg, fs = mfs ++ [mg] /\ Forall2 (frel false) mfs U /\ frel true mg B /\ menv_okg G fs.
 
 Lemma frel_nil : frel false [] [].
 Proof. split; intros; reflexivity. Qed.
@@ -689,34 +706,111 @@ Proof.
   destruct (Z.eq_dec id nm) as [->|Hd]; [now rewrite Hn, alookup_aremove_eq|now rewrite alookup_aremove_neq].
 Qed.
 
-Lemma Rf_lookup fs U B id : Rf fs U B -> chain_get U B (mname id) = option_map mean_of (lookup_frames id fs).
-Proof.
-  intros (mfs & mg & -> & HF & HB & _). induction HF as [|mf ef mfs U [H1 _] _ IH].
-  - cbn [app lookup_frames chain_get]. rewrite (proj1 HB). destruct (alookup id mg); reflexivity.
-  - cbn [app lookup_frames chain_get]. rewrite H1. destruct (alookup id mf); [reflexivity|exact IH].
-Qed.
-
-Lemma Rf_prim fs U B k : Rf fs U B -> (forall id, k <> mname id) -> chain_get U B k = findm k base_frame.
-Proof.
-  intros (mfs & mg & -> & HF & HB & _) Hk. induction HF as [|mf ef mfs U [_ H2] _ IH].
-  - cbn [chain_get]. now apply (proj2 HB).
-  - cbn [chain_get]. now rewrite (H2 k Hk).
-Qed.
-
 Ltac not_mname := let id := fresh in let H := fresh in intros id H; unfold mname in H; discriminate H.
 
-Lemma Rf_push fs U B : Rf fs U B -> Rf ([] :: fs) ([] :: U) B.
+Lemma def_global_app nm m mfs mg : def_global nm m (mfs ++ [mg]) = map (aremove nm) mfs ++ [aset nm m mg].
 Proof.
-  intros (mfs & mg & -> & HF & HB & Hok). exists ([] :: mfs), mg. split; [reflexivity|]. split; [constructor; [apply frel_nil|exact HF]|].
-  split; [exact HB|]. intros f id m [<-|Hin] Hl; [discriminate|]. now apply (Hok f id m).
+  induction mfs as [|f mfs IH]; [reflexivity|]. cbn [app map]. rewrite <- IH.
+  destruct mfs; reflexivity.
 Qed.
 
-Lemma Rf_pop fs u U B : Rf fs (u :: U) B -> Rf (tl fs) U B.
-Proof.
-  intros (mfs & mg & -> & HF & HB & Hok). inversion HF as [|mf ef mfs' U' _ HF' E1 E2]; subst.
-  exists mfs', mg. cbn [app tl]. split; [reflexivity|]. split; [exact HF'|]. split; [exact HB|].
-  intros f id m Hin Hl. apply (Hok f id m); [now right|exact Hl].
-Qed.
+Section Rel.
+  Context (G : MacroLang.meaning -> Prop).
+
+  Lemma Rfg_init : Rfg G (frames empty_env) [] base_frame.
+  Proof.
+    exists [], []. split; [reflexivity|]. split; [constructor|]. split; [apply frel_init|].
+    intros f id m [<-|[]] Hl. discriminate Hl.
+  Qed.
+
+  Lemma Rfg_lookup fs U B id : Rfg G fs U B -> chain_get U B (mname id) = option_map mean_of (lookup_frames id fs).
+  Proof.
+    intros (mfs & mg & -> & HF & HB & _). induction HF as [|mf ef mfs U [H1 _] _ IH].
+    - cbn [app lookup_frames chain_get]. rewrite (proj1 HB). destruct (alookup id mg); reflexivity.
+    - cbn [app lookup_frames chain_get]. rewrite H1. destruct (alookup id mf); [reflexivity|exact IH].
+  Qed.
+
+  Lemma Rfg_prim fs U B k : Rfg G fs U B -> (forall id, k <> mname id) -> chain_get U B k = findm k base_frame.
+  Proof.
+    intros (mfs & mg & -> & HF & HB & _) Hk. induction HF as [|mf ef mfs U [_ H2] _ IH].
+    - cbn [chain_get]. now apply (proj2 HB).
+    - cbn [chain_get]. now rewrite (H2 k Hk).
+  Qed.
+
+  Lemma Rfg_push fs U B : Rfg G fs U B -> Rfg G ([] :: fs) ([] :: U) B.
+  Proof.
+    intros (mfs & mg & -> & HF & HB & Hok). exists ([] :: mfs), mg. split; [reflexivity|]. split; [constructor; [apply frel_nil|exact HF]|].
+    split; [exact HB|]. intros f id m [<-|Hin] Hl; [discriminate|]. now apply (Hok f id m).
+  Qed.
+
+  Lemma Rfg_pop fs u U B : Rfg G fs (u :: U) B -> Rfg G (tl fs) U B.
+  Proof.
+    intros (mfs & mg & -> & HF & HB & Hok). inversion HF as [|mf ef mfs' U' _ HF' E1 E2]; subst.
+    exists mfs', mg. cbn [app tl]. split; [reflexivity|]. split; [exact HF'|]. split; [exact HB|].
+    intros f id m Hin Hl. apply (Hok f id m); [now right|exact Hl].
+  Qed.
+
+  Lemma Rfg_def_local fs U B nm m : G m -> Rfg G fs U B ->
+    let st := add_local (mname nm) (mean_of m) {| input := []; ups := U; bottom := B |} in
+    Rfg G (def_local nm m fs) (ups st) (bottom st).
+  Proof.
+    intros Hm (mfs & mg & -> & HF & HB & Hok) st.
+    assert (Hok' : forall f0 r0, mfs ++ [mg] = f0 :: r0 -> menv_okg G (aset nm m f0 :: r0)).
+    { intros f0 r0 E f id m' [<-|Hin] Hl.
+      - rewrite alookup_aset in Hl. destruct (id =? nm)%Z.
+        + injection Hl as <-. exact Hm.
+        + apply (Hok f0 id m'); [rewrite E; now left|exact Hl].
+      - apply (Hok f id m'); [rewrite E; now right|exact Hl]. }
+    inversion HF as [|mf ef mfs' U' Hfe HF' E1 E2]; subst.
+    - cbn [app def_local]. subst st. unfold add_local. cbn [ups]. unfold add_global, set_bottom. cbn [ups bottom].
+      exists [], (aset nm m mg). split; [reflexivity|]. split; [constructor|]. split.
+      + now apply frel_set.
+      + now apply (Hok' mg []).
+    - cbn [app def_local]. subst st. unfold add_local. cbn [ups]. unfold set_ups. cbn [ups bottom].
+      exists (aset nm m mf :: mfs'), mg. split; [reflexivity|]. split.
+      + constructor; [|exact HF']. now apply frel_set.
+      + split; [exact HB|]. now apply (Hok' mf (mfs' ++ [mg])).
+  Qed.
+
+  Lemma Rfg_def_global fs U B nm m : G m -> unshadowed nm fs = true -> Rfg G fs U B ->
+    Rfg G (def_global nm m fs) U ((mname nm, mean_of m) :: B).
+  Proof.
+    intros Hm Hun (mfs & mg & -> & HF & HB & Hok).
+    unfold unshadowed in Hun. rewrite removelast_last in Hun. rewrite forallb_forall in Hun.
+    rewrite def_global_app. exists (map (aremove nm) mfs), (aset nm m mg). split; [reflexivity|]. split; [|split].
+    - clear Hok HB. induction HF as [|mf ef mfs U Hfe _ IH]; [constructor|]. cbn [map]. constructor.
+      + apply frel_remove; [|exact Hfe]. specialize (Hun mf (or_introl eq_refl)). now destruct (alookup nm mf).
+      + apply IH. intros x Hx. apply Hun. now right.
+    - now apply frel_set.
+    - intros f id m' Hin Hl. apply in_app_or in Hin as [Hin|[<-|[]]].
+      + apply in_map_iff in Hin as (f0 & <- & Hin0). apply alookup_aremove_some in Hl.
+        apply (Hok f0 id m'); [apply in_or_app; now left|exact Hl].
+      + rewrite alookup_aset in Hl. destruct (id =? nm)%Z.
+        * injection Hl as <-. exact Hm.
+        * apply (Hok mg id m'); [apply in_or_app; right; now left|exact Hl].
+  Qed.
+
+  Lemma Rfg_good fs U B id m : Rfg G fs U B -> lookup_frames id fs = Some m -> G m.
+  Proof.
+    intros (mfs & mg & E & _ & _ & Hok) Hl. clear E. induction fs as [|f fs IH]; [discriminate|].
+    cbn [lookup_frames] in Hl. destruct (alookup id f) as [m'|] eqn:Ea.
+    - injection Hl as <-. apply (Hok f id m'); [now left|exact Ea].
+    - apply IH; [|exact Hl]. intros f0 id0 m0 Hin. apply Hok. now right.
+  Qed.
+
+  Lemma prim_lookupg fs U B k p : Rfg G fs U B -> (forall id, k <> mname id) -> findm k base_frame = Some (MPrim p) ->
+    chain_get U B k = Some (MPrim p).
+  Proof. intros HR Hk Hf. now rewrite (Rfg_prim fs U B k HR Hk). Qed.
+End Rel.
+
+(* fragment F1: every stored meaning is a parameterless macro with an F1 body *)
+Definition good (m : MacroLang.meaning) : Prop := m_n m = O /\ m_default m = None /\ F1l (m_body m).
+Definition Rf := Rfg good.
+Definition Rf_lookup := Rfg_lookup good.
+Definition Rf_prim := Rfg_prim good.
+Definition Rf_push := Rfg_push good.
+Definition Rf_pop := Rfg_pop good.
+Definition Rf_good := Rfg_good good.
 
 Lemma good_new b : F1l b -> good {| m_n := O; m_default := None; m_body := b |}.
 Proof. intros H. repeat split. exact H. Qed.
@@ -726,61 +820,14 @@ Proof. intros (H & _ & _). unfold mean_of. now rewrite H. Qed.
 
 Lemma Rf_def_local fs U B nm b : F1l b -> Rf fs U B ->
   let m := {| m_n := O; m_default := None; m_body := b |} in
-  let st := add_local (mname nm) (MDef [] (print b)) (St [] U B) in
+  let st := add_local (mname nm) (MDef [] (print b)) {| input := []; ups := U; bottom := B |} in
   Rf (def_local nm m fs) (ups st) (bottom st).
-Proof.
-  intros Hb (mfs & mg & -> & HF & HB & Hok) m st.
-  assert (Hm : mean_of m = MDef [] (print b)) by reflexivity.
-  assert (Hok' : forall f0 r0, mfs ++ [mg] = f0 :: r0 -> menv_ok (aset nm m f0 :: r0)).
-  { intros f0 r0 E f id m' [<-|Hin] Hl.
-    - rewrite alookup_aset in Hl. destruct (id =? nm)%Z.
-      + injection Hl as <-. now apply good_new.
-      + apply (Hok f0 id m'); [rewrite E; now left|exact Hl].
-    - apply (Hok f id m'); [rewrite E; now right|exact Hl]. }
-  inversion HF as [|mf ef mfs' U' Hfe HF' E1 E2]; subst.
-  - cbn [app def_local]. subst st. unfold add_local. cbn [ups]. unfold add_global, set_bottom. cbn [ups bottom].
-    exists [], (aset nm m mg). split; [reflexivity|]. split; [constructor|]. split.
-    + rewrite <- Hm. now apply frel_set.
-    + now apply (Hok' mg []).
-  - cbn [app def_local]. subst st. unfold add_local. cbn [ups]. unfold set_ups. cbn [ups bottom].
-    exists (aset nm m mf :: mfs'), mg. split; [reflexivity|]. split.
-    + constructor; [|exact HF']. rewrite <- Hm. now apply frel_set.
-    + split; [exact HB|]. now apply (Hok' mf (mfs' ++ [mg])).
-Qed.
-
-Lemma def_global_app nm m mfs mg : def_global nm m (mfs ++ [mg]) = map (aremove nm) mfs ++ [aset nm m mg].
-Proof.
-  induction mfs as [|f mfs IH]; [reflexivity|]. cbn [app map]. rewrite <- IH.
-  destruct mfs; reflexivity.
-Qed.
+Proof. intros Hb HR. exact (Rfg_def_local good fs U B nm _ (good_new b Hb) HR). Qed.
 
 Lemma Rf_def_global fs U B nm b : F1l b -> unshadowed nm fs = true -> Rf fs U B ->
   let m := {| m_n := O; m_default := None; m_body := b |} in
   Rf (def_global nm m fs) U ((mname nm, MDef [] (print b)) :: B).
-Proof.
-  intros Hb Hun (mfs & mg & -> & HF & HB & Hok) m.
-  assert (Hm : mean_of m = MDef [] (print b)) by reflexivity.
-  unfold unshadowed in Hun. rewrite removelast_last in Hun. rewrite forallb_forall in Hun.
-  rewrite def_global_app. exists (map (aremove nm) mfs), (aset nm m mg). split; [reflexivity|]. split; [|split].
-  - clear Hok HB. induction HF as [|mf ef mfs U Hfe _ IH]; [constructor|]. cbn [map]. constructor.
-    + apply frel_remove; [|exact Hfe]. specialize (Hun mf (or_introl eq_refl)). now destruct (alookup nm mf).
-    + apply IH. intros x Hx. apply Hun. now right.
-  - rewrite <- Hm. now apply frel_set.
-  - intros f id m' Hin Hl. apply in_app_or in Hin as [Hin|[<-|[]]].
-    + apply in_map_iff in Hin as (f0 & <- & Hin0). apply alookup_aremove_some in Hl.
-      apply (Hok f0 id m'); [apply in_or_app; now left|exact Hl].
-    + rewrite alookup_aset in Hl. destruct (id =? nm)%Z.
-      * injection Hl as <-. now apply good_new.
-      * apply (Hok mg id m'); [apply in_or_app; right; now left|exact Hl].
-Qed.
-
-Lemma Rf_good fs U B id m : Rf fs U B -> lookup_frames id fs = Some m -> good m.
-Proof.
-  intros (mfs & mg & E & _ & _ & Hok) Hl. clear E. induction fs as [|f fs IH]; [discriminate|].
-  cbn [lookup_frames] in Hl. destruct (alookup id f) as [m'|] eqn:Ea.
-  - injection Hl as <-. apply (Hok f id m'); [now left|exact Ea].
-  - apply IH; [|exact Hl]. intros f0 id0 m0 Hin. apply Hok. now right.
-Qed.
+Proof. intros Hb Hun HR. exact (Rfg_def_global good fs U B nm _ (good_new b Hb) Hun HR). Qed.
 
 (* ---------------------------------------------------------------------------------------------- *)
 (* unfolding equations of the reference evaluator and of the side condition                         *)
@@ -884,34 +931,33 @@ Proof. apply filter_app. Qed.
 Lemma words_text_snoc w out : words_text (rev (w :: out)) = words_text (rev out) ++ wprint w.
 Proof. unfold words_text. cbn [rev]. rewrite flat_map_app. cbn [flat_map]. now rewrite app_nil_r. Qed.
 
-Lemma prim_lookup fs U B k p : Rf fs U B -> (forall id, k <> mname id) -> findm k base_frame = Some (MPrim p) ->
-  chain_get U B k = Some (MPrim p).
-Proof. intros HR Hk Hf. now rewrite (Rf_prim fs U B k HR Hk). Qed.
+Section ExecG.
+  Context (G : MacroLang.meaning -> Prop).
 
-Lemma exec_bgroup fs U B r : Rf fs U B -> exec (St (bg :: r) U B) [prim_elem PBgroup] (St r ([] :: U) B).
+Lemma exec_bgroup fs U B r : Rfg G fs U B -> exec (St (bg :: r) U B) [prim_elem PBgroup] (St r ([] :: U) B).
 Proof.
   intros HR. eapply (ex_cont O).
   - rewrite (step_macro _ _ bg s_bgroup (MPrim PBgroup)); [reflexivity|reflexivity|reflexivity|].
-    apply (prim_lookup fs); [exact HR|not_mname|reflexivity].
+    apply (prim_lookupg G fs); [exact HR|not_mname|reflexivity].
   - eapply (ex_yield O); [apply step_elem; reflexivity|apply ex_refl].
 Qed.
-Lemma exec_egroup fs u U B r : Rf fs (u :: U) B -> exec (St (eg :: r) (u :: U) B) [prim_elem PEgroup] (St r U B).
+Lemma exec_egroup fs u U B r : Rfg G fs (u :: U) B -> exec (St (eg :: r) (u :: U) B) [prim_elem PEgroup] (St r U B).
 Proof.
   intros HR. eapply (ex_cont O).
   - rewrite (step_macro _ _ eg s_egroup (MPrim PEgroup)); [reflexivity|reflexivity|reflexivity|].
-    apply (prim_lookup fs); [exact HR|not_mname|reflexivity].
+    apply (prim_lookupg G fs); [exact HR|not_mname|reflexivity].
   - eapply (ex_yield O); [apply step_elem; reflexivity|apply ex_refl].
 Qed.
-Lemma exec_def fs U B (gl : bool) nm b r : Rf fs U B -> F1l b ->
-  let st := (if gl then add_global else add_local) (mname nm) (MDef [] (print b)) (St r U B) in
-  exec (St (esc (if gl then s_gdef else s_def) :: esc (mname nm) :: bg :: print b ++ eg :: r) U B) [prim_elem (PDef gl)] st.
+Lemma exec_def fs U B (gl : bool) nm np body r : Rfg G fs U B -> depth_after body O = Some O ->
+  let st := (if gl then add_global else add_local) (mname nm) (MDef (param_text np) body) (St r U B) in
+  exec (St (esc (if gl then s_gdef else s_def) :: esc (mname nm) :: param_text np ++ bg :: body ++ eg :: r) U B) [prim_elem (PDef gl)] st.
 Proof.
   intros HR Hb st. eapply (ex_cont O).
   - rewrite (step_macro _ _ _ (if gl then s_gdef else s_def) (MPrim (PDef gl))).
-    + cbn [invoke]. rewrite (def_invoke_print gl nm b r U B Hb). reflexivity.
+    + cbn [invoke]. rewrite (def_invoke_text gl nm np body r U B Hb). reflexivity.
     + destruct gl; reflexivity.
     + destruct gl; reflexivity.
-    + apply (prim_lookup fs); [exact HR|destruct gl; not_mname|destruct gl; reflexivity].
+    + apply (prim_lookupg G fs); [exact HR|destruct gl; not_mname|destruct gl; reflexivity].
   - fold st. destruct st as [i U' B'] eqn:E.
     assert (Hi : i = r) by (subst st; destruct gl; unfold add_global, add_local, set_bottom, set_ups in E; cbn in E; [|destruct U]; inversion E; reflexivity).
     subst i. unfold push_tok, set_input. cbn [input ups bottom].
@@ -924,7 +970,8 @@ Proof.
   rewrite (step_macro _ _ _ (mname nm) (MDef [] body)); [reflexivity|reflexivity|reflexivity|exact H].
 Qed.
 
-Lemma exec_cond fs U B t th el r : Rf fs U B -> f1_test t = true -> F1l th -> (forall e, el = Some e -> F1l e) ->
+Lemma exec_cond fs U B t th el r : Rfg G fs U B -> f1_test t = true -> (forall k, walks (print th) k k) ->
+  (forall e, el = Some e -> forall k, walks (print e) k k) ->
   forall e0, frames e0 = fs ->
   exists X, Forall (fun x => is_elem x = true) X /\
   exec (St (print_test t ++ print th ++ else_part el ++ esc s_fi :: r) U B) []
@@ -934,11 +981,11 @@ Proof.
   - exists []. split; [constructor|]. eapply (ex_cont O); [|apply ex_refl].
     cbn [print_test app]. rewrite (step_macro _ _ _ s_iftrue (MPrim PIftrue)); [|reflexivity|reflexivity|].
     + cbn [invoke]. pose proof (if_invoke_cond [] th el r true U B (Forall_nil _) Hth Hel) as Hi. cbn [app] in Hi. rewrite Hi. reflexivity.
-    + apply (prim_lookup fs); [exact HR|not_mname|reflexivity].
+    + apply (prim_lookupg G fs); [exact HR|not_mname|reflexivity].
   - exists []. split; [constructor|]. eapply (ex_cont O); [|apply ex_refl].
     cbn [print_test app]. rewrite (step_macro _ _ _ s_iffalse (MPrim PIffalse)); [|reflexivity|reflexivity|].
     + cbn [invoke]. pose proof (if_invoke_cond [] th el r false U B (Forall_nil _) Hth Hel) as Hi. cbn [app] in Hi. rewrite Hi. reflexivity.
-    + apply (prim_lookup fs); [exact HR|not_mname|reflexivity].
+    + apply (prim_lookupg G fs); [exact HR|not_mname|reflexivity].
   - destruct a as [a|]; [|discriminate Ht]. destruct b as [b|]; [|discriminate Ht].
     cbn [f1_test] in Ht. apply andb_true_iff in Ht as [Ha Hb]. apply Z.leb_le in Ha, Hb.
     exists [prim_elem PRelax]. split; [constructor; [reflexivity|constructor]|].
@@ -951,9 +998,11 @@ Proof.
           with ([prim_elem PRelax] ++ print th ++ else_part el ++ esc s_fi :: r).
         rewrite (if_invoke_cond [prim_elem PRelax] th el r (relz rl a b) U B); [|constructor; [reflexivity|constructor]|exact Hth|exact Hel].
         reflexivity.
-      * apply (prim_lookup fs); [exact HR|not_mname|reflexivity].
-    + apply (prim_lookup fs); [exact HR|not_mname|reflexivity].
+      * apply (prim_lookupg G fs); [exact HR|not_mname|reflexivity].
+    + apply (prim_lookupg G fs); [exact HR|not_mname|reflexivity].
 Qed.
+
+End ExecG.
 
 (* ---------------------------------------------------------------------------------------------- *)
 (* the simulation                                                                                   *)
@@ -992,15 +1041,16 @@ Proof.
     assert (HR2 : Rf (frames (with_frames e2 (tl (frames e2)))) U1 B1) by (apply (Rf_pop _ u1); exact HR1').
     destruct (IH _ _ _ _ _ Hns Hev Hg2 U1 B1 rest HR2) as (T2 & U2 & B2 & Hex2 & HR2' & Hlen2 & Htxt2).
     exists ([prim_elem PBgroup] ++ T1 ++ [prim_elem PEgroup] ++ T2), U2, B2. repeat split; [|exact HR2'|cbn in Hlen1; lia|].
-    + eapply exec_trans; [apply (exec_bgroup _ _ _ _ HR1)|].
+    + eapply exec_trans; [apply (exec_bgroup good _ _ _ _ HR1)|].
       eapply exec_trans; [exact Hex1|].
-      eapply exec_trans; [apply (exec_egroup _ _ _ _ _ HR1')|exact Hex2].
+      eapply exec_trans; [apply (exec_egroup good _ _ _ _ _ HR1')|exact Hex2].
     + rewrite Htxt2, Htxt1, !text_of_app. cbn [text_of filter prim_elem is_elem]. cbn. now rewrite <- !app_assoc.
   - (* definition *)
     rewrite (eval_def f e out ns budget Hs) in Hev. rewrite (gsafe_def f e out ns budget Hs) in Hgs.
     apply andb_true_iff in Hgs as [Hun Hg2].
     rewrite print_def0. cbn [app]. rewrite <- app_assoc. cbn [app].
-    pose proof (exec_def _ U B g nm b (print ns ++ rest) HR1 Hb) as Hex0. cbv zeta in Hex0.
+    pose proof (exec_def good _ U B g nm O (print b) (print ns ++ rest) HR1 (proj2 depth_print b Hb O)) as Hex0. cbv zeta in Hex0.
+    change (param_text O) with (@nil tok) in Hex0. cbn [app] in Hex0.
     set (st := (if g then add_global else add_local) (mname nm) (MDef [] (print b)) (St (print ns ++ rest) U B)) in *.
     assert (Hst : exists U0 B0, st = St (print ns ++ rest) U0 B0 /\ length U0 = length U /\
                    Rf ((if g then def_global else def_local) nm {| m_n := O; m_default := None; m_body := b |} (frames (tick e budget))) U0 B0).
@@ -1040,7 +1090,8 @@ Proof.
     set (br := if eval_test (tick e budget) t then th else match el with Some x => x | None => [] end) in *.
     destruct (eval f (tick e budget) out br) as [e2 out2| |] eqn:Eb; try discriminate Hev.
     rewrite print_cond. rewrite <- !app_assoc. cbn [app].
-    destruct (exec_cond _ U B t th el (print ns ++ rest) HR1 Ht Hth Hel (tick e budget) eq_refl) as (X & HX & Hex0).
+    destruct (exec_cond good _ U B t th el (print ns ++ rest) HR1 Ht (proj2 walks_print th Hth)
+               (fun e0 He0 => proj2 walks_print e0 (Hel e0 He0)) (tick e budget) eq_refl) as (X & HX & Hex0).
     assert (Hbr : F1l br) by (subst br; destruct (eval_test (tick e budget) t); [exact Hth|destruct el as [x|]; [now apply Hel|constructor]]).
     destruct (IH _ _ _ _ _ Hbr Eb Hg1 U B (print ns ++ rest) HR1) as (T1 & U1 & B1 & Hex1 & HR1' & Hlen1 & Htxt1).
     destruct (IH _ _ _ _ _ Hns Hev Hg2 U1 B1 rest HR1') as (T2 & U2 & B2 & Hex2 & HR2' & Hlen2 & Htxt2).
@@ -1070,12 +1121,339 @@ Theorem engine_simulates_F1 fuel p e out :
     (forall k, (forall id, k <> mname id) -> findm k (bottom st') = findm k base_frame).
 Proof.
   intros HF Hden Hsafe. apply in_F1_sound in HF. unfold den in Hden. unfold gdef_safe in Hsafe.
-  assert (HR0 : Rf (frames empty_env) [] base_frame).
-  { exists [], []. split; [reflexivity|]. split; [constructor|]. split; [apply frel_init|].
-    intros f id m [<-|[]] Hl. discriminate Hl. }
+  assert (HR0 : Rf (frames empty_env) [] base_frame) by apply Rfg_init.
   destruct (sim fuel empty_env [] p e out HF Hden Hsafe [] base_frame [] HR0) as (T & U' & B' & Hex & HR & Hlen & Htxt).
   destruct U' as [|u U']; [|discriminate Hlen]. rewrite app_nil_r in Hex.
   destruct (exec_run _ _ _ Hex eq_refl) as (fuel' & Hrun).
   exists fuel', (St [] [] B'), T. split; [exact (Hrun [])|]. split; [cbn in Htxt; now rewrite Htxt|]. split; [reflexivity|].
   destruct HR as (mfs & mg & E & HF2 & HB & _). inversion HF2; subst. rewrite E. cbn [app last bottom]. exact HB.
+Qed.
+
+(* ============================================================================================== *)
+(* Stage 2: undelimited parameters (fragment F2)                                                    *)
+(* ============================================================================================== *)
+
+(* induction on nodes with the hypotheses for the lists inside the constructors the fragments use *)
+Definition structured (n : node) : bool :=
+  match n with NGroup _ | NDef _ _ _ _ _ | NCall _ _ _ | NCond _ _ _ => true | _ => false end.
+
+Lemma node_ind2 (P : node -> Prop) :
+  (forall n, structured n = false -> P n) ->
+  (forall b, Forall P b -> P (NGroup b)) ->
+  (forall g nm np d b, Forall P b -> P (NDef g nm np d b)) ->
+  (forall nm o a, Forall (Forall P) a -> P (NCall nm o a)) ->
+  (forall t th el, Forall P th -> (forall x, el = Some x -> Forall P x) -> P (NCond t th el)) ->
+  forall n, P n.
+Proof.
+  intros Hleaf Hgroup Hdef Hcall Hcond. fix IH 1. intros n.
+  pose (go := fix go (l : list node) : Forall P l :=
+      match l return Forall P l with [] => Forall_nil P | x :: r => Forall_cons x (IH x) (go r) end).
+  pose (go2 := fix go2 (ll : list (list node)) : Forall (Forall P) ll :=
+      match ll return Forall (Forall P) ll with [] => Forall_nil _ | a :: r => Forall_cons a (go a) (go2 r) end).
+  destruct n; try (apply Hleaf; reflexivity).
+  - apply Hgroup. apply go.
+  - apply Hdef. apply go.
+  - apply Hcall. apply go2.
+  - destruct els as [e|].
+    + apply Hcond; [apply go|]. intros x Hx. injection Hx as <-. apply go.
+    + apply Hcond; [apply go|]. intros x Hx. discriminate Hx.
+Qed.
+
+Lemma Forall_forallb {A} (f : A -> bool) (Q : A -> Prop) l :
+  Forall (fun x => f x = true -> Q x) l -> forallb f l = true -> Forall Q l.
+Proof.
+  induction 1 as [|x l Hx _ IH]; intros H; [constructor|]. cbn in H. apply andb_true_iff in H as [H1 H2].
+  constructor; [now apply Hx|now apply IH].
+Qed.
+Lemma Forall2_forallb {A} (f : A -> bool) (Q : A -> Prop) ll :
+  Forall (Forall (fun x => f x = true -> Q x)) ll -> forallb (forallb f) ll = true -> Forall (Forall Q) ll.
+Proof.
+  induction 1 as [|l ll Hl _ IH]; intros H; [constructor|]. cbn in H. apply andb_true_iff in H as [H1 H2].
+  constructor; [now apply (Forall_forallb f)|now apply IH].
+Qed.
+
+(* the token shape shared by all fragments: what the scanners need *)
+Fixpoint w_node (x : node) : bool :=
+  match x with
+  | NWord _ | NParam _ => true
+  | NGroup b => forallb w_node b
+  | NDef _ _ _ d b => is_none d && forallb w_node b
+  | NCall _ o a => is_none o && forallb (forallb w_node) a
+  | NCond t th el => f1_test t && forallb w_node th && match el with Some e => forallb w_node e | None => true end
+  | _ => false
+  end.
+
+Fixpoint print_args (l : list (list node)) : list tok :=
+  match l with [] => [] | a :: r => bg :: print a ++ eg :: print_args r end.
+Lemma print_def g nm np d b :
+  print_node (NDef g nm np d b) = esc (if g then s_gdef else s_def) :: esc (mname nm) :: param_text np ++ bg :: print b ++ [eg].
+Proof. reflexivity. Qed.
+Lemma print_call nm o a : print_node (NCall nm o a) = esc (mname nm) :: print_args a.
+Proof. reflexivity. Qed.
+Lemma print_param k : print_node (NParam k) = [hash_tok; other (48 + N.of_nat k)].
+Proof. reflexivity. Qed.
+
+Lemma walks_list l : Forall (fun x => forall k, walks (print_node x) k k) l -> forall k, walks (print l) k k.
+Proof. induction 1 as [|x l Hx _ IH]; intros k; [apply walks_nil|]. cbn [print]. eapply walks_app; [apply Hx|apply IH]. Qed.
+Lemma walks_param_text i n k : walks (flat_map (fun i => [hash_tok; other (48 + N.of_nat i)]) (seq i n)) k k.
+Proof.
+  apply walks_toks. revert i. induction n as [|n IH]; intros i; cbn [seq flat_map app]; [constructor|].
+  constructor; [reflexivity|]. constructor; [reflexivity|apply IH].
+Qed.
+
+Lemma walks_W : forall x, w_node x = true -> forall k, walks (print_node x) k k.
+Proof.
+  apply (node_ind2 (fun x => w_node x = true -> forall k, walks (print_node x) k k)).
+  - intros n Hs H k. destruct n; try discriminate H; try discriminate Hs.
+    + apply walks_wprint.
+    + rewrite print_param. apply walks_toks. constructor; [reflexivity|]. constructor; [reflexivity|constructor].
+  - intros b IH H k. cbn [w_node] in H. rewrite print_group. change (bg :: ?l) with ([bg] ++ l).
+    eapply walks_app; [apply walks_tok; reflexivity|]. eapply walks_app; [|apply walks_tok; reflexivity].
+    apply walks_list. now apply (Forall_forallb w_node).
+  - intros g nm np d b IH H k. cbn [w_node] in H. apply andb_true_iff in H as [_ H]. rewrite print_def.
+    change (?a :: ?b' :: ?l) with ([a; b'] ++ l). eapply walks_app.
+    + apply walks_toks. constructor; [destruct g; reflexivity|]. constructor; [reflexivity|constructor].
+    + eapply walks_app; [apply walks_param_text|]. change (bg :: ?l) with ([bg] ++ l).
+      eapply walks_app; [apply walks_tok; reflexivity|]. eapply walks_app; [|apply walks_tok; reflexivity].
+      apply walks_list. now apply (Forall_forallb w_node).
+  - intros nm o a IH H k. cbn [w_node] in H. apply andb_true_iff in H as [_ H]. rewrite print_call.
+    change (?x :: ?l) with ([x] ++ l). eapply walks_app; [apply walks_tok; reflexivity|].
+    pose proof (Forall2_forallb w_node _ a IH H) as Ha. clear IH H.
+    induction Ha as [|arg a Harg _ IHa]; [apply walks_nil|]. cbn [print_args].
+    change (bg :: ?l) with ([bg] ++ l). eapply walks_app; [apply walks_tok; reflexivity|].
+    eapply walks_app; [now apply walks_list|]. change (eg :: ?l) with ([eg] ++ l).
+    eapply walks_app; [apply walks_tok; reflexivity|exact IHa].
+  - intros t th el IHth IHel H k. cbn [w_node] in H. apply andb_true_iff in H as [H He]. apply andb_true_iff in H as [Ht Hth].
+    rewrite print_cond. eapply walks_app; [now apply walks_test|].
+    eapply walks_app; [apply walks_list; now apply (Forall_forallb w_node)|].
+    eapply walks_app; [|apply walks_fi].
+    destruct el as [e|]; [|apply walks_nil].
+    change (esc s_else :: ?l) with ([esc s_else] ++ l). eapply walks_app; [apply walks_else|].
+    apply walks_list. apply (Forall_forallb w_node); [now apply IHel|exact He].
+Qed.
+
+Lemma walks_Wl l : forallb w_node l = true -> forall k, walks (print l) k k.
+Proof. intros H. apply walks_list. apply (Forall_forallb w_node); [|exact H]. apply Forall_forall. intros x _. apply walks_W. Qed.
+
+Lemma depth_list l : Forall (fun x => forall d, depth_after (print_node x) d = Some d) l -> forall d, depth_after (print l) d = Some d.
+Proof. induction 1 as [|x l Hx _ IH]; intros d; [reflexivity|]. cbn [print]. now rewrite depth_after_app, Hx, IH. Qed.
+Lemma flat_param_text i n : Forall flat (flat_map (fun i => [hash_tok; other (48 + N.of_nat i)]) (seq i n)).
+Proof.
+  revert i. induction n as [|n IH]; intros i; cbn [seq flat_map app]; [constructor|].
+  constructor; [split; reflexivity|]. constructor; [split; reflexivity|apply IH].
+Qed.
+
+Lemma depth_W : forall x, w_node x = true -> forall d, depth_after (print_node x) d = Some d.
+Proof.
+  apply (node_ind2 (fun x => w_node x = true -> forall d, depth_after (print_node x) d = Some d)).
+  - intros n Hs H d. destruct n; try discriminate H; try discriminate Hs.
+    + apply depth_flat, flat_wprint.
+    + reflexivity.
+  - intros b IH H d. cbn [w_node] in H. rewrite print_group. cbn [depth_after]. change (is_bgroup bg) with true. cbn iota.
+    rewrite depth_after_app, (depth_list b (Forall_forallb w_node _ b IH H)). reflexivity.
+  - intros g nm np dd b IH H d. cbn [w_node] in H. apply andb_true_iff in H as [_ H]. rewrite print_def.
+    change (?a :: ?b' :: ?l) with ([a; b'] ++ l). rewrite depth_after_app.
+    rewrite (depth_flat [esc (if g then s_gdef else s_def); esc (mname nm)]) by
+      (constructor; [destruct g; split; reflexivity|]; constructor; [split; reflexivity|constructor]).
+    rewrite depth_after_app. unfold param_text. rewrite (depth_flat _ (flat_param_text 1 np)).
+    cbn [depth_after]. change (is_bgroup bg) with true. cbn iota.
+    rewrite depth_after_app, (depth_list b (Forall_forallb w_node _ b IH H)). reflexivity.
+  - intros nm o a IH H d. cbn [w_node] in H. apply andb_true_iff in H as [_ H]. rewrite print_call.
+    cbn [depth_after]. change (is_bgroup (esc (mname nm))) with false. change (is_egroup (esc (mname nm))) with false. cbn iota.
+    pose proof (Forall2_forallb w_node _ a IH H) as Ha. clear IH H. revert d.
+    induction Ha as [|arg a Harg _ IHa]; intros d; [reflexivity|]. cbn [print_args depth_after].
+    change (is_bgroup bg) with true. cbn iota. rewrite depth_after_app, (depth_list arg Harg). cbn [depth_after].
+    change (is_bgroup eg) with false. change (is_egroup eg) with true. cbn iota. apply IHa.
+  - intros t th el IHth IHel H d. cbn [w_node] in H. apply andb_true_iff in H as [H He]. apply andb_true_iff in H as [Ht Hth].
+    rewrite print_cond.
+    rewrite depth_after_app, (depth_flat _ (flat_test t)), depth_after_app, (depth_list th (Forall_forallb w_node _ th IHth Hth)), depth_after_app.
+    destruct el as [e|]; [|reflexivity].
+    cbn [depth_after]. change (is_bgroup (esc s_else)) with false. change (is_egroup (esc s_else)) with false. cbn iota.
+    rewrite (depth_list e (Forall_forallb w_node _ e (IHel e eq_refl) He)). reflexivity.
+Qed.
+Lemma depth_Wl l : forallb w_node l = true -> forall d, depth_after (print l) d = Some d.
+Proof. intros H. apply depth_list. apply (Forall_forallb w_node); [|exact H]. apply Forall_forall. intros x _. apply depth_W. Qed.
+
+Lemma forallb_imp {A} (f g : A -> bool) l :
+  Forall (fun x => f x = true -> g x = true) l -> forallb f l = true -> forallb g l = true.
+Proof.
+  induction 1 as [|x l Hx _ IH]; intros H; [reflexivity|]. cbn in *. apply andb_true_iff in H as [H1 H2].
+  apply andb_true_iff. split; [now apply Hx|now apply IH].
+Qed.
+Lemma forallb2_imp {A} (f g : A -> bool) ll :
+  Forall (Forall (fun x => f x = true -> g x = true)) ll -> forallb (forallb f) ll = true -> forallb (forallb g) ll = true.
+Proof.
+  induction 1 as [|l ll Hl _ IH]; intros H; [reflexivity|]. cbn in *. apply andb_true_iff in H as [H1 H2].
+  apply andb_true_iff. split; [now apply (forallb_imp f g)|now apply IH].
+Qed.
+
+Lemma fa_W : forall x, fa_node x = true -> w_node x = true.
+Proof.
+  apply (node_ind2 (fun x => fa_node x = true -> w_node x = true)).
+  - intros n Hs H. destruct n; try discriminate H; try discriminate Hs; reflexivity.
+  - intros b IH H. cbn [fa_node w_node] in *. now apply (forallb_imp fa_node).
+  - intros g nm np d b IH H. cbn [fa_node w_node] in *. apply andb_true_iff in H as [H Hb]. apply andb_true_iff in H as [_ Hd].
+    rewrite Hd. now apply (forallb_imp fa_node).
+  - intros nm o a IH H. cbn [fa_node w_node] in *. apply andb_true_iff in H as [Ho Ha]. rewrite Ho. now apply (forallb2_imp fa_node).
+  - intros t th el IHth IHel H. cbn [fa_node w_node] in *. apply andb_true_iff in H as [H He]. apply andb_true_iff in H as [Ht Hth].
+    rewrite Ht, (forallb_imp fa_node w_node th IHth Hth). destruct el as [e|]; [|reflexivity].
+    now apply (forallb_imp fa_node w_node e (IHel e eq_refl)).
+Qed.
+
+Lemma fb_mono n : forall x d, fb_node n x d = true -> fb_node n x (S d) = true.
+Proof.
+  apply (node_ind2 (fun x => forall d, fb_node n x d = true -> fb_node n x (S d) = true)).
+  - intros x Hs d H. destruct x; try discriminate H; try discriminate Hs; exact H.
+  - intros b IH d H. cbn [fb_node] in *. destruct d as [|d]; [discriminate H|].
+    apply (forallb_imp (fun y => fb_node n y d)); [|exact H]. eapply Forall_impl; [|exact IH]. intros y Hy. apply Hy.
+  - intros g nm np dd b IH d H. cbn [fb_node] in *. apply andb_true_iff in H as [H0 H]. rewrite H0. destruct d as [|d]; [discriminate H|].
+    apply (forallb_imp (fun y => fb_node n y d)); [|exact H]. eapply Forall_impl; [|exact IH]. intros y Hy. apply Hy.
+  - intros nm o a IH d H. cbn [fb_node] in *. apply andb_true_iff in H as [H0 H]. rewrite H0. cbn [andb].
+    clear H0. induction IH as [|arg a Harg _ IHa]; [reflexivity|]. cbn [forallb] in *. apply andb_true_iff in H as [H1 H2].
+    apply andb_true_iff. split; [|now apply IHa]. destruct d as [|d]; [discriminate H1|].
+    apply (forallb_imp (fun y => fb_node n y d)); [|exact H1]. eapply Forall_impl; [|exact Harg]. intros y Hy. apply Hy.
+  - intros t th el IHth IHel d H. cbn [fb_node] in *. apply andb_true_iff in H as [Ht H]. rewrite Ht. destruct d as [|d]; [discriminate H|].
+    apply andb_true_iff in H as [Hth He]. cbn [andb]. apply andb_true_iff. split.
+    + apply (forallb_imp (fun y => fb_node n y d)); [|exact Hth]. eapply Forall_impl; [|exact IHth]. intros y Hy. apply Hy.
+    + destruct el as [e|]; [|reflexivity]. apply (forallb_imp (fun y => fb_node n y d)); [|exact He].
+      eapply Forall_impl; [|exact (IHel e eq_refl)]. intros y Hy. apply Hy.
+Qed.
+
+Lemma fb_W n : forall x d, fb_node n x d = true -> w_node x = true.
+Proof.
+  apply (node_ind2 (fun x => forall d, fb_node n x d = true -> w_node x = true)).
+  - intros x Hs d H. destruct x; try discriminate H; try discriminate Hs; reflexivity.
+  - intros b IH d H. cbn [fb_node w_node] in *. destruct d as [|d]; [discriminate H|].
+    apply (forallb_imp (fun y => fb_node n y d)); [|exact H]. eapply Forall_impl; [|exact IH]. intros y Hy. apply Hy.
+  - intros g nm np dd b IH d H. cbn [fb_node w_node] in *. apply andb_true_iff in H as [H0 H]. apply andb_true_iff in H0 as [_ Hd]. rewrite Hd.
+    destruct d as [|d]; [discriminate H|].
+    apply (forallb_imp (fun y => fb_node n y d)); [|exact H]. eapply Forall_impl; [|exact IH]. intros y Hy. apply Hy.
+  - intros nm o a IH d H. cbn [fb_node w_node] in *. apply andb_true_iff in H as [H0 H]. rewrite H0. cbn [andb].
+    clear H0. induction IH as [|arg a Harg _ IHa]; [reflexivity|]. cbn [forallb] in *. apply andb_true_iff in H as [H1 H2].
+    apply andb_true_iff. split; [|now apply IHa]. destruct d as [|d]; [discriminate H1|].
+    apply (forallb_imp (fun y => fb_node n y d)); [|exact H1]. eapply Forall_impl; [|exact Harg]. intros y Hy. apply Hy.
+  - intros t th el IHth IHel d H. cbn [fb_node w_node] in *. apply andb_true_iff in H as [Ht H]. rewrite Ht. destruct d as [|d]; [discriminate H|].
+    apply andb_true_iff in H as [Hth He]. cbn [andb]. apply andb_true_iff. split.
+    + apply (forallb_imp (fun y => fb_node n y d)); [|exact Hth]. eapply Forall_impl; [|exact IHth]. intros y Hy. apply Hy.
+    + destruct el as [e|]; [|reflexivity]. apply (forallb_imp (fun y => fb_node n y d)); [|exact He].
+      eapply Forall_impl; [|exact (IHel e eq_refl)]. intros y Hy. apply Hy.
+Qed.
+Lemma fb_Wl n d l : forallb (fun y => fb_node n y d) l = true -> forallb w_node l = true.
+Proof. apply forallb_imp. apply Forall_forall. intros x _. apply fb_W. Qed.
+Lemma fa_Wl l : forallb fa_node l = true -> forallb w_node l = true.
+Proof. apply forallb_imp. apply Forall_forall. intros x _. apply fa_W. Qed.
+
+Lemma f2_W : forall x, f2_node x = true -> w_node x = true.
+Proof.
+  apply (node_ind2 (fun x => f2_node x = true -> w_node x = true)).
+  - intros n Hs H. destruct n; try discriminate H; try discriminate Hs; reflexivity.
+  - intros b IH H. cbn [f2_node w_node] in *. now apply (forallb_imp f2_node).
+  - intros g nm np d b _ H. cbn [f2_node w_node] in *. apply andb_true_iff in H as [H Hb]. apply andb_true_iff in H as [_ Hd].
+    rewrite Hd. apply orb_true_iff in Hb as [Hb|Hb]; [now apply (fb_Wl np BODY_DEPTH)|].
+    apply andb_true_iff in Hb as [_ Hb]. now apply fa_Wl.
+  - intros nm o a _ H. cbn [f2_node w_node] in *. apply andb_true_iff in H as [Ho Ha]. rewrite Ho.
+    apply (forallb2_imp fa_node); [|exact Ha]. apply Forall_forall. intros l _. apply Forall_forall. intros x _. apply fa_W.
+  - intros t th el IHth IHel H. cbn [f2_node w_node] in *. apply andb_true_iff in H as [H He]. apply andb_true_iff in H as [Ht Hth].
+    rewrite Ht, (forallb_imp f2_node w_node th IHth Hth). destruct el as [e|]; [|reflexivity].
+    now apply (forallb_imp f2_node w_node e (IHel e eq_refl)).
+Qed.
+Lemma f2_Wl l : forallb f2_node l = true -> forallb w_node l = true.
+Proof. apply forallb_imp. apply Forall_forall. intros x _. apply f2_W. Qed.
+
+Lemma fa_f2 : forall x, fa_node x = true -> f2_node x = true.
+Proof.
+  apply (node_ind2 (fun x => fa_node x = true -> f2_node x = true)).
+  - intros n Hs H. destruct n; try discriminate H; try discriminate Hs; reflexivity.
+  - intros b IH H. cbn [fa_node f2_node] in *. now apply (forallb_imp fa_node).
+  - intros g nm np d b _ H. cbn [fa_node f2_node] in *. apply andb_true_iff in H as [H Hb]. apply andb_true_iff in H as [Hn Hd].
+    rewrite Hd, Hn, Hb. apply Nat.eqb_eq in Hn. subst np. cbn. now rewrite orb_true_r.
+  - intros nm o a _ H. exact H.
+  - intros t th el IHth IHel H. cbn [fa_node f2_node] in *. apply andb_true_iff in H as [H He]. apply andb_true_iff in H as [Ht Hth].
+    rewrite Ht, (forallb_imp fa_node f2_node th IHth Hth). destruct el as [e|]; [|reflexivity].
+    now apply (forallb_imp fa_node f2_node e (IHel e eq_refl)).
+Qed.
+Lemma fa_f2l l : forallb fa_node l = true -> forallb f2_node l = true.
+Proof. apply forallb_imp. apply Forall_forall. intros x _. apply fa_f2. Qed.
+
+(* arguments contain no parameter: substitution and lowering leave them alone (at any fuel) *)
+Lemma map_id_forallb {A} (f : A -> A) (p : A -> bool) l : (forall x, p x = true -> f x = x) -> forallb p l = true -> map f l = l.
+Proof.
+  intros Hf. induction l as [|x l IH]; intros H; [reflexivity|]. cbn in *. apply andb_true_iff in H as [H1 H2].
+  now rewrite (Hf x H1), IH.
+Qed.
+
+Lemma lower_A k : forall l, forallb fa_node l = true -> lower k l = l.
+Proof.
+  induction k as [|k IH]; intros l Hl; [reflexivity|]. cbn [lower].
+  induction l as [|x l IHl]; [reflexivity|]. cbn [forallb] in Hl. apply andb_true_iff in Hl as [Hx Hl].
+  cbn [map]. rewrite (IHl Hl). f_equal.
+  destruct x; try discriminate Hx; try reflexivity; cbn [fa_node] in Hx.
+  - now rewrite (IH body Hx).
+  - apply andb_true_iff in Hx as [Hx Hb]. apply andb_true_iff in Hx as [_ Hd]. destruct default; [discriminate Hd|].
+    cbn [option_map]. now rewrite (IH body Hb).
+  - apply andb_true_iff in Hx as [Ho Ha]. destruct opt; [discriminate Ho|]. cbn [option_map].
+    now rewrite (map_id_forallb (lower k) (forallb fa_node) args IH Ha).
+  - apply andb_true_iff in Hx as [Hx He]. apply andb_true_iff in Hx as [_ Hth]. rewrite (IH thn Hth).
+    destruct els as [e|]; [|reflexivity]. cbn [option_map]. now rewrite (IH e He).
+Qed.
+
+Lemma subst_A k args : forall l, forallb fa_node l = true -> subst k args l = l.
+Proof.
+  induction k as [|k IH]; intros l Hl; [reflexivity|]. cbn [subst].
+  induction l as [|x l IHl]; [reflexivity|]. cbn [forallb] in Hl. apply andb_true_iff in Hl as [Hx Hl].
+  cbn [flat_map]. rewrite (IHl Hl).
+  destruct x; try discriminate Hx; try reflexivity; cbn [fa_node] in Hx.
+  - now rewrite (IH body Hx).
+  - apply andb_true_iff in Hx as [Hx Hb]. apply andb_true_iff in Hx as [_ Hd]. destruct default; [discriminate Hd|].
+    cbn [option_map]. now rewrite (IH body Hb), (lower_A 50 body Hb).
+  - apply andb_true_iff in Hx as [Ho Ha]. destruct opt; [discriminate Ho|]. cbn [option_map].
+    now rewrite (map_id_forallb (subst k args) (forallb fa_node) args0 IH Ha).
+  - apply andb_true_iff in Hx as [Hx He]. apply andb_true_iff in Hx as [_ Hth]. rewrite (IH thn Hth).
+    destruct els as [e|]; [|reflexivity]. cbn [option_map]. now rewrite (IH e He).
+Qed.
+
+(* expandDef on printed text *)
+Definition xp (ps : list (option (list tok))) (P P' : list tok) : Prop :=
+  forall tl, expand_def (P ++ tl) false ps = match expand_def tl false ps with Some o => Some (P' ++ o) | None => None end.
+
+Lemma xp_nil ps : xp ps [] [].
+Proof. intros tl. cbn [app]. destruct (expand_def tl false ps); reflexivity. Qed.
+Lemma xp_app ps P P' Q Q' : xp ps P P' -> xp ps Q Q' -> xp ps (P ++ Q) (P' ++ Q').
+Proof.
+  intros HP HQ tl. rewrite <- app_assoc, HP, HQ. destruct (expand_def tl false ps); [|reflexivity]. now rewrite app_assoc.
+Qed.
+Definition inert (t : tok) : Prop := is_param t = false /\ is_ifx t = false.
+Lemma xp_tok ps t : inert t -> xp ps [t] [t].
+Proof. intros [H1 H2] tl. cbn [app expand_def]. rewrite H1, H2. reflexivity. Qed.
+Lemma xp_toks ps l : Forall inert l -> xp ps l l.
+Proof.
+  induction 1 as [|t l Ht _ IH]; [apply xp_nil|]. change (t :: l) with ([t] ++ l). apply xp_app; [now apply xp_tok|exact IH].
+Qed.
+Lemma is_ifx_false t : ttext t <> [105; 102; 120] -> is_ifx t = false.
+Proof.
+  intros H. unfold is_ifx, tok_eqb. destruct t as [k x]. cbn [ttext] in H.
+  destruct (list_eq_dec N.eq_dec x [105; 102; 120]); [contradiction|apply andb_false_r].
+Qed.
+Lemma inert_letter c : inert (letter c). Proof. split; [reflexivity|apply is_ifx_false; cbn; congruence]. Qed.
+Lemma inert_other c : inert (other c). Proof. split; [reflexivity|apply is_ifx_false; cbn; congruence]. Qed.
+Lemma inert_esc n : n <> [105; 102; 120] -> inert (esc n). Proof. intros H. split; [reflexivity|now apply is_ifx_false]. Qed.
+Lemma inert_bg : inert bg. Proof. split; [reflexivity|apply is_ifx_false; cbn; congruence]. Qed.
+Lemma inert_eg : inert eg. Proof. split; [reflexivity|apply is_ifx_false; cbn; congruence]. Qed.
+Lemma inert_sp : inert sp. Proof. split; [reflexivity|apply is_ifx_false; cbn; congruence]. Qed.
+Lemma inert_mname id : inert (esc (mname id)). Proof. apply inert_esc. unfold mname. congruence. Qed.
+
+Lemma inert_wprint w : Forall inert (wprint w).
+Proof.
+  unfold wprint. constructor; [apply inert_letter|]. apply Forall_app. split; [apply Forall_map_tok, inert_letter|].
+  constructor; [apply inert_sp|constructor].
+Qed.
+Lemma inert_test t : Forall inert (print_test t).
+Proof.
+  destruct t as [| |a r b| | | | | |]; try constructor; try (apply inert_esc; cbn; congruence); try constructor.
+  destruct a as [a|]; [|constructor]. destruct b as [b|]; [|constructor].
+  cbn [print_test]. constructor; [apply inert_esc; cbn; congruence|].
+  apply Forall_app. split; [apply Forall_map_tok, inert_other|].
+  constructor; [destruct r; apply inert_other|].
+  apply Forall_app. split; [apply Forall_map_tok, inert_other|].
+  constructor; [apply inert_esc; cbn; congruence|constructor].
 Qed.
